@@ -218,6 +218,39 @@ func init() {
 		}
 		return "n=1 U " + hx(addr) + " " + hxb(canonBranch(buf[:n])) + " keys+=[] keys-=[] from=" + hx(from.String())
 	})
+	// wire probe <src> <dst> <observer> <hex request> <attempts> <ms>: a liveness probe after a flood. The request is sent
+	// and the observer socket is read for <ms>; if nothing came (the listener's socket buffer may still have been full
+	// when the probe arrived: UDP), it is sent again, up to <attempts> times. Answer as for `wire recv`.
+	vReg("wire probe", func(a []string) string {
+		src, e1 := wireUDP(unhx(a[0]))
+		obs, e2 := wireUDP(unhx(a[2]))
+		if e1 != nil || e2 != nil {
+			return "bind-error"
+		}
+		dst, _ := net.ResolveUDPAddr("udp", unhx(a[1]))
+		attempts, _ := strconv.Atoi(a[4])
+		ms, _ := strconv.Atoi(a[5])
+		buf := make([]byte, 70000)
+		for k := 0; k < attempts; k++ {
+			if _, err := src.WriteToUDP([]byte(unhx(a[3])), dst); err != nil {
+				return "send-error"
+			}
+			obs.SetReadDeadline(time.Now().Add(time.Duration(ms) * time.Millisecond))
+			n, from, err := obs.ReadFromUDP(buf)
+			if err == nil {
+				// later copies of the probe (earlier attempts that were only slow) are not part of the answer
+				time.Sleep(20 * time.Millisecond)
+				for {
+					obs.SetReadDeadline(time.Now().Add(2 * time.Millisecond))
+					if _, _, e := obs.ReadFromUDP(make([]byte, 70000)); e != nil {
+						break
+					}
+				}
+				return "n=1 U " + hx(unhx(a[2])) + " " + hxb(canonBranch(buf[:n])) + " keys+=[] keys-=[] from=" + hx(from.String())
+			}
+		}
+		return "n=0 keys+=[] keys-=[]"
+	})
 	// wire drain <addr> : discard everything pending
 	vReg("wire drain", func(a []string) string {
 		c, err := wireUDP(unhx(a[0]))
